@@ -176,7 +176,8 @@ def _mk_body(sname, scfg, rig: Rig):
                         if op.get("same"):       # equal-valued events (same uid, same payload)
                             ctx.send_event(cls(uid="%s.%s%s" % (uid, sname, op["ty"]), k=0), step=op.get("target"))
                         else:
-                            ctx.send_event(cls(uid="%s.%s%s%d" % (uid, sname, op["ty"], i), k=i), step=op.get("target"))
+                            j = i + int(op.get("uid_from", 0))       # (a second send op of the same type numbers on)
+                            ctx.send_event(cls(uid="%s.%s%s%d" % (uid, sname, op["ty"], j), k=j), step=op.get("target"))
                 elif o == "publish":
                     ctx.write_event_to_stream(E.TYPES[op["ty"]](uid="%s!%s" % (uid, sname)))
                 elif o == "collect":
@@ -190,7 +191,7 @@ def _mk_body(sname, scfg, rig: Rig):
                     if op.get("hold"):
                         # the step read its snapshot first and is still running when other results are applied
                         await rig.make_gate(key)
-                    if r is None:
+                    if r is None and not op.get("cont"):
                         how = "none"
                         return None
                 elif o == "wait":
